@@ -81,6 +81,10 @@ def values(rng, shape, vclass, dtype="float64"):
     elif vclass == "withzeros":
         a = rng.standard_normal(shape)
         a = np.where(rng.random(shape) < 0.4, 0.0, a)
+    elif vclass == "nonneg-withzeros":
+        # boundary of the domain of sqrt / log / fractional powers: exact zeros among positive values (values and gradients may be inf there;
+        # used where only purity / determinism is judged)
+        a = np.where(rng.random(shape) < 0.4, 0.0, rng.uniform(0.3, 3.0, shape))
     elif vclass == "large":
         a = rng.standard_normal(shape) * 1e3
     elif vclass == "tiny":
